@@ -595,3 +595,140 @@ def run(ctx):
 
 # evidence: how the model is tied to the source on every run (as built, supersedes the value above)
 TIE = 'translator (format digits -> Gen/Consts, writer and loaders -> Gen/LoaderFns; Props/C16Gen, C16GenFns) + correspondence at the byte level (incl. a malformed-file stream)'
+
+
+# ---- round-7 lesson (hx_r7c): one file, many spellings of its path -------------------------------------------------------------------------
+
+def _spellings(tmp, d, name):
+    """{label: path object} -- every entry names the SAME file tmp/d/name (created here, with a symlinked directory, a symlink and a hard link to
+    the file; whichever the platform refuses is left out)"""
+    import pathlib
+    real = os.path.join(tmp, d, name)
+    os.makedirs(os.path.dirname(real), exist_ok=True)
+    with open(real, 'w') as fh:
+        fh.write('placeholder\n2 0.0100\n0.000000\n0.000000')
+    rel = os.path.relpath(real, os.getcwd())
+    sp = {'absolute str': real, 'relative to the working directory': rel, './relative': os.path.join('.', rel),
+          'dir/../dir/file': os.path.join(tmp, d, '..', d, name), 'doubled separator': os.path.join(tmp, d) + os.sep + os.sep + name,
+          'dir/./file': os.path.join(tmp, d, '.', name), 'pathlib.Path (absolute)': pathlib.Path(real), 'pathlib.Path (relative)': pathlib.Path(rel),
+          'pathlib.PurePath joined': pathlib.Path(tmp) / d / name}
+    try:
+        os.symlink(real, os.path.join(tmp, d, 'link-to-' + name))
+        sp['symlink to the file'] = os.path.join(tmp, d, 'link-to-' + name)
+    except OSError:
+        pass
+    try:
+        os.symlink(os.path.join(tmp, d), os.path.join(tmp, d + '-linked'), target_is_directory=True)
+        sp['through a symlinked directory'] = os.path.join(tmp, d + '-linked', name)
+    except OSError:
+        pass
+    try:
+        os.link(real, os.path.join(tmp, d, 'hard-' + name))
+        sp['hard link to the file'] = os.path.join(tmp, d, 'hard-' + name)
+    except OSError:
+        pass
+    return {k: v for k, v in sp.items() if os.path.exists(v) and os.path.samefile(v, real)}
+
+
+def _x3_spellings(ctx, cur, tmp):
+    """the FILE is the only state: a file that is saved, loaded, saved again (other length / same length and byte size / only another time step /
+    only another label) and loaded again -- each time through another spelling of its path (absolute, relative, ./x, dir/../dir/x, pathlib.Path,
+    symlinks, a hard link), or replaced by a file saved elsewhere and moved / copied onto it -- always loads as the signal saved LAST, through
+    every loader entry point."""
+    import eqsig
+    from eqsig import loader
+    rng = ctx.rng
+    quick = ctx.tier == 'quick'
+    for it in range(30 if quick else 300):
+        d = 'sp%d' % it
+        sp = _spellings(tmp, d, 'station_ew.txt')
+        names = sorted(sp)
+        real = sp['absolute str']
+        used = rng.sample(names, min(len(names), rng.choice([2, 3, 4])))
+        n_prev, v, dt, label = None, None, None, None
+        steps = []
+        loaded_via = []
+        for step in range(rng.choice([2, 3, 3, 4])):
+            how = 'other length' if step == 0 else rng.choice(['other length', 'other length', 'same length, same file size', 'only the time step differs', 'only the label differs'])
+            if how == 'other length':
+                n = rng.choice([m for m in (2, 3, 5, 7, 40, 120) if m != n_prev])
+                v = np.array(gen_values(rng, n, rng.choice(['mixed', 'gauss', 'dyadic', 'big'])))
+                dt, label = rng.choice(DTS), rng.choice(LABELS)
+            elif how == 'same length, same file size':
+                v = np.roll(v, 1) if len(set(v.tolist())) > 1 else v + 1.0      # a permutation: the same lines in another order
+            elif how == 'only the time step differs':
+                dt = rng.choice([x for x in DTS if x != dt])
+            else:
+                label = rng.choice([x for x in LABELS if x != label])
+            n = n_prev = len(v)
+            via = rng.choice(used)
+            route = rng.choice(['save_signal', 'save_values_and_dt', 'save_signal', 'saved elsewhere and moved onto the file', 'saved elsewhere and copied onto the file'])
+            steps.append({'step': step, 'saved': how, 'through': via if not route.startswith('saved elsewhere') else route, 'by': route, 'n': n, 'dt': dt, 'label': label, 'head': v[:3].tolist()})
+            if route == 'save_signal':
+                eqsig.save_signal(sp[via], (eqsig.AccSignal if step % 2 else eqsig.Signal)(v, dt, label=label))
+            elif route == 'save_values_and_dt':
+                loader.save_values_and_dt(sp[via], v, dt, label)
+            else:
+                other = os.path.join(tmp, d, 'elsewhere.txt')
+                loader.save_values_and_dt(other, v, dt, label)
+                if route.endswith('moved onto the file'):
+                    os.replace(other, real)             # (the links of the earlier file keep the earlier inode: not used afterwards)
+                    sp = {k: q for k, q in sp.items() if os.path.exists(q) and os.path.samefile(q, real)}
+                    used = [u for u in used if u in sp] or ['absolute str']
+                    loaded_via = [u for u in loaded_via if u in sp]
+                else:
+                    shutil.copyfile(other, real)
+                    os.remove(other)
+            # load through spellings used for loading before (what a memo would key on) and through one more
+            vias = list(dict.fromkeys(loaded_via[-2:] + [rng.choice(used), rng.choice(sorted(sp))]))
+            for lv in vias:
+                q = sp[lv]
+                m = rng.choice([1.0, 1.0, 2.0, 0.5, -9.81])
+                loads = [('load_values_and_dt', lambda: loader.load_values_and_dt(q), 1.0), ('eqsig.load_asig(load_label=True, m)', lambda: eqsig.load_asig(q, load_label=True, m=m), m),
+                         ('eqsig.load_sig(m)', lambda: eqsig.load_sig(q, m), m), ("eqsig.load_signal(astype='acc_sig')", lambda: eqsig.load_signal(q, astype='acc_sig'), 1.0),
+                         ("eqsig.load_signal(astype='signal')", lambda: eqsig.load_signal(q, 'signal'), 1.0)]
+                for nm, f, mm in (loads if lv == vias[0] else rng.sample(loads, 2)):
+                    inputs = {'history of the file (saves in order)': [dict(x) for x in steps], 'loaded through': lv, 'loaded earlier through': list(loaded_via), 'loader': nm, 'm': mm,
+                              'values': v.tolist(), 'dt': dt, 'label': label}
+                    cur.clear()
+                    cur.update(inputs)
+                    ctx.hist('spellings/load via ' + lv)
+                    ctx.count_case(('x3s', it, step, lv, nm, v.tobytes(), dt, label), n >= 3)
+                    r = call_impl(f)
+                    if r[0] != 'ok':
+                        ctx.oracle('C16.b %s loads the file through any spelling of its path' % nm, False, inputs, detail=r)
+                        continue
+                    vals, gdt = (r[1][0], r[1][1]) if nm == 'load_values_and_dt' else (r[1].values, r[1].dt)
+                    bad = _np_check_loaded(vals, v, mm, n)
+                    ctx.oracle('C16.b %s returns points, values (6 decimals, times m) and time step (4 decimals) of the signal saved LAST to the file, whatever spelling of '
+                               'the path was used to save and to load' % nm, bad is None and abs(gdt - dt) <= 0.5e-4 * (1 + 1e-9), inputs, detail={'values': bad, 'dt': gdt, 'npts': len(np.atleast_1d(vals))})
+                    if nm.startswith('eqsig.load_asig'):
+                        ctx.oracle('C16.b load_asig(load_label=True) returns the label saved LAST to the file, whatever spelling of the path was used', r[1].label == label, inputs,
+                                   detail={'got': r[1].label})
+                    if nm != 'load_values_and_dt':
+                        want_t = 'Signal' if nm.startswith('eqsig.load_sig(') or "astype='signal'" in nm else 'AccSignal'
+                        ctx.oracle('C16.c %s returns the requested object type' % nm, type(r[1]).__name__ == want_t, inputs, detail=type(r[1]).__name__)
+                if lv not in loaded_via:
+                    loaded_via.append(lv)
+        shutil.rmtree(os.path.join(tmp, d), ignore_errors=True)
+        if os.path.islink(os.path.join(tmp, d + '-linked')):
+            os.remove(os.path.join(tmp, d + '-linked'))
+
+
+def extras_spellings(ctx):
+    from _hxb_common import guarded_sections
+    os.makedirs(WORK, exist_ok=True)
+    tmp = tempfile.mkdtemp(dir=WORK, prefix='c16s-')
+    try:
+        guarded_sections(ctx, 'C16', [('spellings', lambda c, cur: _x3_spellings(c, cur, tmp))])
+    finally:
+        shutil.rmtree(tmp, ignore_errors=True)
+
+
+_run_main_sp = run
+
+
+def run(ctx):
+    _run_main_sp(ctx)
+    extras_spellings(ctx)
+    ctx.flush()
